@@ -688,6 +688,21 @@ func c13OneEdit(x *engine.Ctx, baseIdx int, base c13Base, h0 string, w0 *simfs.W
 				cls += " edited-file-keeps-an-old-time"
 			}
 			x.ViolationCase(cls, fmt.Sprintf("base %q, edit %v: a generate-changed run does not regenerate the entity (plan %v)", base.Name, names, res.PlanAliases()), replay)
+			continue
+		}
+		// the hash stored with the re-issued certificate is the one of the configuration it was issued from
+		// (what a fresh generation of the edited files stores), so the next run sees no change
+		if a := ReadArtifact(w, eb.Cfg.Path); a.Pem == nil || a.Pem.HashLine == nil || *a.Pem.HashLine != h1 {
+			got := "none"
+			if a.Pem != nil && a.Pem.HashLine != nil {
+				got = *a.Pem.HashLine
+			}
+			x.ViolationCase("C13/stale-hash-after-reissue "+feature, fmt.Sprintf("base %q, edit %v: after the re-issue the artifact stores hash %s; a fresh generation of the same files stores %s (the old configuration had %s)", base.Name, names, got, h1, h0), replay)
+		}
+		res2 := drive.Run(w, drive.Changed, nil)
+		x.Transition(1)
+		if res2.OK() && res2.Planned(AliasOf(eb.Cfg)) {
+			x.ViolationCase("C13/unchanged-after-reissue-seen-as-changed "+feature, fmt.Sprintf("base %q, edit %v: a second generate-changed run without any further edit plans %v", base.Name, names, res2.PlanAliases()), replay)
 		}
 	}
 	x.Outcome("relevant edit")
